@@ -138,3 +138,22 @@ def scalar_invalidated_annotations(A):
         if op.isa(cola.Stiefel) and abs(abs(c) - 1) > 1e-12:
             bad.add("Unitary")
     return bad
+
+
+def contaminated_by_scalar(tree, names=("SelfAdjoint", )):
+    """True if some scalar-multiple subtree of the IR (scale / neg / div / a product with a ScalarMul leaf), built
+    stand-alone, reports one of `names` although its scalar invalidates it (open finding F-C05-scalar). Checked on the
+    IR rather than on the final operator because combinators flatten products and short-cuts such as X.H -> X of a
+    falsely SelfAdjoint X leave no trace in the built object."""
+    from cvh import ir as IR
+    names = set(names)
+    for node in IR.nodes(tree):
+        k = node["k"]
+        if k in ("scale", "neg", "div", "rdiv") or (k == "prod" and any(c["k"] == "smul" for c in node.get("ch", []))) or k == "smul":
+            try:
+                sub = IR.build(node)
+            except Exception:
+                continue
+            if hasattr(sub, "annotations") and scalar_invalidated_annotations(sub) & names:
+                return True
+    return False
